@@ -44,6 +44,13 @@ def _worker(job):
         res.update(out)
     except CaseTimeout:
         res["timeout"] = True
+        try:  # keep what the case had established before the budget ran out
+            import harness.common as hc
+
+            if hc.CURRENT is not None and hc.CURRENT.case is case:
+                res.update(hc.CURRENT.result())
+        except BaseException:
+            pass
     except Exception:
         res["error"] = traceback.format_exc()[-1500:]
     finally:
